@@ -458,6 +458,7 @@ package dbft
 //@   ensures wf() && txKept()
 //@   ensures implies(!result, self.Config.MaxTimePerBlock != nil)
 //@   ensures [C15] @unchangedIfRefused implies(!result, unchanged(c.Timestamp, c.Nonce, c.TransactionHashes, c.Transactions) && c.Config.MaxTimePerBlock != nil && !force && len(gPool) == 0)
+//@   ensures [C16] @refusesEmpty implies(c.Config.MaxTimePerBlock != nil && !force && len(gPool) == 0, !result)
 //@   ensures [C15] @increasing implies(result, c.Timestamp > c.lastBlockTimestamp)
 //@   ensures [C15,C14] @clock implies(result, c.Timestamp == max(c.lastBlockTimestamp + c.Config.TimestampIncrement, truncClock()))
 //@   ensures [C15] @pool implies(result, len(c.TransactionHashes) == len(gPool) && forall(j, 0, len(gPool), c.TransactionHashes[j] == gPool[j].Hash() && has(c.Transactions, gPool[j].Hash())))
@@ -540,6 +541,8 @@ package dbft
 //@   ensures [C10] @arms gTimerArms > old(gTimerArms)
 //@   ensures [C16,C14] @rttReference implies(gBroadcasts == old(gBroadcasts), unchanged(self.prepareSentTime))
 //@   ensures [C16] @forcedProposes implies(force || self.Config.MaxTimePerBlock == nil, gBroadcasts > old(gBroadcasts))
+// a proposal goes out only if it was forced, or no maximum block time is configured, or the pool just read was not empty
+//@   at call d.broadcast: assert [C16] @emptyNotProposed force || self.Config.MaxTimePerBlock == nil || len(gPool) > 0
 //@   ensures [C16] @emptyWaitsMax implies(gBroadcasts == old(gBroadcasts), self.Config.MaxTimePerBlock != nil && !force && self.txSubscriptionOn
 //@        && gTimerD == self.maxTimePerBlock - self.timePerBlock && gTimerH == self.BlockIndex && gTimerV == self.ViewNumber && self.ViewNumber == old(self.ViewNumber))
 //@   requires [C13] @silent notWatchOnly()
